@@ -886,6 +886,16 @@ func (te *TemplateEngine) cloneDocument(source *Document) *Document {
 		copy(doc.documentRelationships.Relationships, source.documentRelationships.Relationships)
 	}
 
+	// 复制包级关系（_rels/.rels）：打开的文档可能声明了 docProps 等部件，
+	// 这些部件会被一并复制，其关系也必须保留，否则渲染结果中它们成为孤立部件
+	if source.relationships != nil {
+		doc.relationships = &Relationships{
+			Xmlns:         source.relationships.Xmlns,
+			Relationships: make([]Relationship, len(source.relationships.Relationships)),
+		}
+		copy(doc.relationships.Relationships, source.relationships.Relationships)
+	}
+
 	// 复制内容类型
 	if source.contentTypes != nil {
 		doc.contentTypes = &ContentTypes{
